@@ -257,7 +257,43 @@ func runC09(c *Ctx) {
 	} else {
 		c.Unk("C09.A4-configured-filters-in-force", "announce.NewReceiver", token.NoPos, "not found")
 	}
-	c.Floor("C09.A4-configured-filters-in-force", 2)
+	// …and the configured value is the one last given: an option stores its argument whatever it is (an option that
+	// keeps the earlier value when handed nil or false cannot switch a filter off again — "allow all" given after a
+	// filter leaves the filter in force)
+	{
+		nOpt := 0
+		for _, f := range c.Funcs(pkg) {
+			instrsDeep(f.SSA, func(g *ssa.Function, in ssa.Instruction) {
+				st, ok := in.(*ssa.Store)
+				if !ok || g == f.SSA {
+					return
+				}
+				a := c.E(st.Addr)
+				if a.Op != "field" || fieldOwner(a) != "config" || (a.Name != "allowPeer" && a.Name != "filterIPs") {
+					return
+				}
+				val := st.Val
+				if u, isLoad := val.(*ssa.UnOp); isLoad && u.Op == token.MUL {
+					val = u.X // a captured variable is held by reference
+				}
+				if _, isFV := val.(*ssa.FreeVar); !isFV {
+					return
+				}
+				nOpt++
+				cond := token.NoPos
+				for _, fct := range c.FactsAt(st.Block()) {
+					if fct.If != nil && fct.If.Parent() == g {
+						cond = fct.If.Cond.Pos()
+					}
+				}
+				c.Check(!cond.IsValid(), "C09.A4-configured-filters-in-force", c.short(f.SSA.String())+" › stores what it is given", st.Pos(), "the option stores its argument unconditionally", "the option stores its argument only under a test (at "+c.pos(cond)+"): given after an earlier setting it cannot restore the default, and the earlier filter stays in force")
+			})
+		}
+		if nOpt == 0 {
+			c.Unk("C09.A4-configured-filters-in-force", "announce › filter options", token.NoPos, "no option storing its argument into config.allowPeer / config.filterIPs found")
+		}
+	}
+	c.Floor("C09.A4-configured-filters-in-force", 4)
 
 	// ---- A5 republication ------------------------------------------------------------------------------
 	nRep := 0
@@ -295,6 +331,23 @@ func runC09(c *Ctx) {
 		for _, d := range decs {
 			_, notSelf := c.GuardedSite(d, Bin("==", sender, Field("hostID", Any())), false)
 			_, hasOrig := c.GuardedSite(d, Bin("==", orig, Const(`""`)), false)
+			if !notSelf && hasOrig && len(d.Via) == 0 {
+				// the order of the two steps is free (decode, then compare): what counts is that every way from a
+				// message that carries an original peer to its delivery passes the test sender ≠ this host — the
+				// pubsub sender, not the decoded publisher
+				nDel := 0
+				notSelf = true
+				for _, cs := range c.Calls(watch, c.RoleCall("announce.deliver")) {
+					if cs.Fn != watch {
+						continue
+					}
+					nDel++
+					if !c.PathsCarryDAG(cs.In.Block(), []Alt{{Bin("==", orig, Const(`""`)), true}, {Bin("==", sender, Field("hostID", Any())), false}}) {
+						notSelf = false
+					}
+				}
+				notSelf = notSelf && nDel > 0
+			}
 			c.Check(notSelf && hasOrig, "C09.A6-pubsub-path", key+" › own republication ignored", d.In.Pos(),
 				"the original peer is decoded (and the message handled) only when the pubsub sender is not this host", "the self-republication test does not compare the pubsub sender (msg.From) with this host's ID before the source is replaced by the original peer, or does not skip the message")
 		}
